@@ -557,7 +557,68 @@ func checkDoc(root V, st *Stats) error {
 	return nil
 }
 
+// firstContact: the very first thing the first C04 case of a process does is to parse a set of documents
+// holding unusual literal spellings (tRuE, NULL, 1E5, 0X1F ...), before any other document has been
+// converted in this process. After later cases the same documents are parsed again: what the parser makes
+// of an input must not depend on what it has parsed before (C04: the outcome is a function of the bytes).
+var (
+	firstContactDocs []string
+	firstContact     []parseOutcome
+	c04Cases         int
+)
+
+var oddLiterals = []string{"tRuE", "fALSE", "trUE", "TRue", "nULL", "Null", "NULL", "TRUE", "FALSE", "True", "False", "T", "F", "tRUE", "falsE",
+	"1E5", "1e5", "0X1F", "0x1f", "0B1", "0O7", "1_0", "+1", "1.0E2", "INF", "Inf", "inf", "nan", "NaN", "NAN", "+Inf", "-inf", "1E+2", "0XfF", "nUll", "TrUe"}
+
+func probeFirstContact(st *Stats) error {
+	if firstContact == nil {
+		for _, l := range oddLiterals {
+			firstContactDocs = append(firstContactDocs, "["+l+"]", "{\"a\":"+l+"}", "[1,"+l+",true,false,null]")
+		}
+		firstContact = make([]parseOutcome, len(firstContactDocs))
+		for i, d := range firstContactDocs {
+			firstContact[i] = parseEither(d)
+		}
+		return nil
+	}
+	if c04Cases++; c04Cases%8 != 1 { // the first case of a process included (a replayed case is the first of its process)
+		return nil
+	}
+	st.Count("first_contact_reprobe")
+	for i, d := range firstContactDocs {
+		if err := sameOutcome("parser", firstContact[i], parseEither(d)); err != nil {
+			return errf("%v on input %q (the first outcome is from the start of the process, before any other document was parsed; the second from now)", err, d)
+		}
+	}
+	return nil
+}
+
+func parseEither(d string) parseOutcome {
+	call := callParseList(d)
+	if d[0] == '{' {
+		call = callParseObject(d)
+	}
+	o, err := guarded("parser", call)
+	if err != nil {
+		o.panicked = err
+	}
+	return o
+}
+
 func CheckC04(c *C04Case, st *Stats) error {
+	if firstContact == nil {
+		if err := probeFirstContact(st); err != nil {
+			return err
+		}
+	}
+	err := checkC04(c, st)
+	if err == nil {
+		err = probeFirstContact(st)
+	}
+	return err
+}
+
+func checkC04(c *C04Case, st *Stats) error {
 	switch c.Mode {
 	case "bytes":
 		st.Count("mode.bytes")
